@@ -4,12 +4,12 @@ CONSTANTS
   HostileNames <- MC_NoHostile
   MaxOps = 2
   MaxIno = 10
-  Cfg <- MC_Cfg_seal_noopen
-  TaintOn = FALSE
-  Mode = "c18"
+  Cfg <- MC_Cfg_ifh
+  AsFound <- MC_AF_c05
+  Mode = "c05"
   InitS <- MC_S_plain
-  ScenCfg <- MC_Scen_seal_noopen
+  ScenCfg <- MC_Scen_ifh
   ScenTree <- MC_Tree_plain
 VIEW View
-INVARIANTS TreeOK Sealed SealRulesOK
+INVARIANTS TreeOK MirrorOK
 CHECK_DEADLOCK FALSE
